@@ -101,7 +101,12 @@ func (c *HeartbeatManager) StartHeartbeat() error {
 // Stop updating heartbeat data
 // Note: No active subscribers will get any further notifications!
 func (c *HeartbeatManager) StopHeartbeat() {
-	if c.IsHeartbeatRunning() {
+	// check and close under the same lock, otherwise two concurrent
+	// calls can both see a running heartbeat and close the channel twice
+	c.stopMux.Lock()
+	defer c.stopMux.Unlock()
+
+	if c.stopHeartbeatC != nil && !c.isHeartbeatClosed() {
 		close(c.stopHeartbeatC)
 	}
 }
